@@ -503,7 +503,17 @@ func (x *explorer) emit(st *state, end string, results []*T, loop int, pos token
 	}
 	p := &Path{Guards: st.guards, Effects: st.effects, End: end, Loop: loop, EndPos: pos, Blocks: st.blocks, LoopRange: st.loopRange}
 	for _, r := range results {
-		p.Results = append(p.Results, x.subst(st, r))
+		rv := x.subst(st, r)
+		// a result that is the outcome of a type test already decided on this path ("return isList")
+		if rv != nil && rv.Op == "iskind" && len(rv.Args) == 1 {
+			for _, g := range st.guards {
+				if g.Kind == "kind" && g.Const == rv.Name && g.A != nil && g.A.String() == rv.Args[0].String() {
+					rv = mkConst(fmt.Sprint(!g.Neg), nil)
+					break
+				}
+			}
+		}
+		p.Results = append(p.Results, rv)
 	}
 	for _, l := range st.loops {
 		p.Loops = append(p.Loops, l.id)
@@ -1842,6 +1852,12 @@ func (x *explorer) call(st *state, fr *frame, b, prev *ssa.BasicBlock, idx int, 
 		return false
 	}
 	// equivalent spellings of library calls
+	if name == "slices.Concat" && len(args) == 1 && args[0].Op == "lit" && len(args[0].Args) == 2 && args[0].Args[1].Op == "lit" {
+		// slices.Concat(a, []T{x, ...}) holds the same values as append(a, x, ...), in a slice of its own
+		x.nTerms++
+		setRes(st, &T{Op: "append", N: x.nTerms, Args: []*T{args[0].Args[0], args[0].Args[1]}, V: val})
+		return false
+	}
 	if name == "strings.Replace" && len(args) == 4 && args[3].IsConst("-1") {
 		name, args = "strings.ReplaceAll", args[:3]
 	}
